@@ -230,9 +230,9 @@ PLAN = {
         level_note="The harness does not own Go's scheduler: an interleaving-dependent output mix-up that involves no unsynchronised access is found only if a sampled schedule hits it. The race detector reports an unsynchronised conflicting pair whenever both accesses execute in a run.",
         technique="property-based testing (rapid) of generated concurrent programs under the Go race detector, differential against a sequential run",
         quick=[rapid("prop", "TestProp", 300, race=True, env={"GORACE": "halt_on_error=1"}, shrinktime="5s"),
-               enum("sizes", "TestSizes", race=True, env={"GORACE": "halt_on_error=1"})],
+               enum("sizes", "TestSizes", race=True, env={"GORACE": "halt_on_error=1"}), enum("widen", "TestWiden")],
         thorough=[rapid("prop", "TestProp", 1500, shards=16, race=True, env={"GORACE": "halt_on_error=1"}, gomaxprocs=[2, 4, 8, 16], shrinktime="5s"),
-                  enum("sizes", "TestSizes", race=True, env={"GORACE": "halt_on_error=1"})],
+                  enum("sizes", "TestSizes", race=True, env={"GORACE": "halt_on_error=1"}), enum("widen", "TestWiden")],
     ),
     "C17": dict(
         pkg="c17",
@@ -407,6 +407,7 @@ RULE_EXTRA11 = {
     "C11": "Row error steps also call Row.AddError(nil), Row.AddErrorList with nil entries around and between one to three errors, and Row.AddErrorList(nil / empty), on rows before and after they join the table; macro 'ownrow' (row made on its own, told 0-2 times while detached, attached, told again); one registration in about six is a table-owned add-time callback that adds one more row to the same table (at most twice, never from within itself) before it reports its own error.",
     "C13": "Step 'copyattached': a by-value copy of a cell that already lives in an attached row is added to another (or the same) row, pending or attached - a new cell like any other for every add-time callback; in half of these a render callback is first registered on the original and another on the free-standing copy (each must fire on its own cell only, the copy also keeps what the original owned when it was copied).",
     "C15": "Job 'cross' has a fourth fixed table (columns skipable by their own setting and by the column-0 default, rows with empty cells in front, in the middle and at the end) and one table of about 1900 rows (past 32 KiB) under csv, html, json and markdown with a sample of 50 write indices.",
+    "C16": "Job 'widen': 400 rounds of four goroutines released together, each rendering a text table of its own whose widest cell is wider than anything the process has drawn so far (60 to about 2060 cells), then every width rendered alone; each output must be a rectangle holding its own text (an oracle independent of what the process rendered before).",
     "C19": "Subject 'near': a near miss of an existing decoration name (hyphens to underscores and back, hyphens dropped or turned into blanks, last character dropped, a hyphen appended), bare, texttable.-prefixed or with a trailing section - known only if exactly that was registered; one registered decoration in about eight is half-made (one to three template fields, never populated): it is listed, so it must render without error and SetDecorationNamed must accept it.",
 }
 
